@@ -195,19 +195,19 @@ def call(obj_kind, x, step, cell0, inplace):
         if obj_kind == "field":
             x.mesh.translate(arg, inplace=True)
             return x
-        return x.translate(arg, inplace=inplace)
+        return x.translate(arg, **gen.nd_kw(inplace=inplace))
     if kind == "scale":
         fac = conv_arg(step[1], step[3], nd)
         ref = None if step[2] is None else conv_arg([v * c for v, c in zip(step[2], cell0)], step[3], nd)
         if obj_kind == "field":
             x.mesh.scale(fac, reference_point=ref, inplace=True)
             return x
-        return x.scale(fac, reference_point=ref, inplace=inplace)
+        return x.scale(fac, **gen.nd_kw(reference_point=ref, inplace=inplace))
     if kind == "rot":
         r = x if obj_kind == "region" else (x.region if obj_kind == "mesh" else x.mesh.region)
         dims = r.dims
         ref = None if step[4] is None else conv_arg([v * c for v, c in zip(step[4], cell0)], step[5], nd)
-        return x.rotate90(dims[step[1]], dims[step[2]], k=step[3], reference_point=ref, inplace=inplace)
+        return x.rotate90(dims[step[1]], dims[step[2]], **gen.nd_kw(k=step[3], reference_point=ref, inplace=inplace))
     raise KeyError(kind)
 
 
